@@ -20,26 +20,33 @@
 (*           | sanitize (identifier characters only)                       *)
 (***************************************************************************)
 EXTENDS Naturals, Sequences, TLC
-CONSTANTS Ctx, Esc, RseBackslash, DocEscapes
+CONSTANTS Ctx, Esc, RseBackslash, DocEscapes, CtlEscapes
 \* RseBackslash: TRUE iff remove_string_escapes also escapes backslash / newline characters (the repaired primitive)
 \* DocEscapes:   TRUE iff safe_docstring neutralises backslashes and triple quotes itself (the repaired macro)
+\* CtlEscapes:   TRUE iff remove_string_escapes writes C0 control characters as \uXXXX and safe_docstring writes NUL as \x00
+\* NUL: U+0000 (no Python source file and no TOML file may contain it) | CTL: another C0 control character or DEL (legal inside a Python
+\* literal, illegal inside a TOML basic string)
 \* AST: a character outside the BMP | LS: U+2028 (a line break for str.splitlines, not for the Python tokenizer) | FF: form feed
-Classes == {"DQ", "SQ", "BS", "NL", "CR", "LB", "RB", "N", "X", "AST", "LS", "FF"}
+Classes == {"DQ", "SQ", "BS", "NL", "CR", "LB", "RB", "N", "X", "AST", "LS", "FF", "NUL", "CTL"}
 
 U6 == <<"BS", "X", "X", "X", "X", "X">>                                 \* a \uXXXX escape
+U4 == <<"BS", "X", "X", "X">>                                           \* a \xXX escape
 \* ---- escapers: class -> sequence of output classes
 Rse(c) == IF c = "DQ" THEN <<"BS", "DQ">>
           ELSE IF RseBackslash /\ c = "BS" THEN <<"BS", "BS">>
           ELSE IF RseBackslash /\ c = "NL" THEN <<"BS", "N">>
           ELSE IF RseBackslash /\ c = "CR" THEN <<"BS", "X">>          \* \r
           ELSE IF RseBackslash /\ c \in {"LS", "FF"} THEN U6              \* \u2028, \u000c: every character that splits lines is escaped
+          ELSE IF CtlEscapes /\ c \in {"NUL", "CTL"} THEN U6
           ELSE <<c>>
 \* repr(): output is a Python literal; modelled at the level of its CONTENT inside quotes chosen by repr (always consistent):
 \* backslash doubled, newline as \n, the surrounding quote escaped - content never terminates the literal
-Repr(c) == CASE c = "BS" -> <<"BS", "BS">> [] c = "NL" -> <<"BS", "N">> [] c = "CR" -> <<"BS", "X">> [] c = "SQ" -> <<"BS", "SQ">> [] OTHER -> <<c>>
+Repr(c) == CASE c = "BS" -> <<"BS", "BS">> [] c = "NL" -> <<"BS", "N">> [] c = "CR" -> <<"BS", "X">> [] c = "SQ" -> <<"BS", "SQ">>
+             [] c \in {"NUL", "CTL"} -> U4 [] OTHER -> <<c>>
 RECURSIVE FlatMap(_, _)
 FlatMap(f(_), s) == IF s = <<>> THEN <<>> ELSE f(Head(s)) \o FlatMap(f, Tail(s))
-Doc(c) == IF DocEscapes THEN (CASE c = "BS" -> <<"BS", "BS">> [] c = "DQ" -> <<"BS", "DQ">> [] OTHER -> <<c>>) ELSE <<c>>
+Doc(c) == IF CtlEscapes /\ c = "NUL" THEN U4
+          ELSE IF DocEscapes THEN (CASE c = "BS" -> <<"BS", "BS">> [] c = "DQ" -> <<"BS", "DQ">> [] OTHER -> <<c>>) ELSE <<c>>
 Out(c) == CASE Esc = "none" -> <<c>>
             [] Esc = "rse" -> Rse(c)
             [] Esc = "repr" -> Repr(c)
@@ -54,6 +61,7 @@ Out(c) == CASE Esc = "none" -> <<c>>
 Quote == IF Ctx \in {"SQ", "REPR"} THEN "SQ" ELSE "DQ"
 Step(ls, c) ==
   IF ls \in {"out", "err"} THEN ls
+  ELSE IF c = "NUL" \/ (c = "CTL" /\ Ctx = "TOMLB") THEN "err"          \* the file as a whole is refused
   ELSE IF Ctx = "IDENT" THEN (IF c \in {"N", "X", "AST"} THEN "in" ELSE "err")
   ELSE IF Ctx = "TDQ" THEN
     (CASE ls = "esc" -> "in"
@@ -83,7 +91,8 @@ Faithful(c, o) ==      \* does the decoder reconstruct c from o (given no pendin
   IF Esc = "sanitize" THEN TRUE           \* identifiers are not meant to reproduce the text
   ELSE IF o = <<>> THEN FALSE
   ELSE IF Len(o) = 1 /\ o[1] = "BS" THEN TRUE       \* decided by the next character (pend)
-  ELSE IF o = U6 THEN c \in {"LS", "FF"}            \* the \uXXXX escape of that very character
+  ELSE IF o = U6 THEN c \in {"LS", "FF", "NUL", "CTL"}   \* the \uXXXX escape of that very character
+  ELSE IF o = U4 THEN c \in {"NUL", "CTL"}
   ELSE Decoded(o) = c
 
 FeedClass(c) ==
